@@ -545,6 +545,11 @@ Step_C12 ==
     THEN LET id == e.id
              c == ctx[id]
          IN /\ StateCbs(cb') = <<>>
+            \* a batch that is not answered in full is completed when its own expiry block ends, never earlier:
+            \* the block of the expiry its requests were issued with
+            /\ (c.bstate = "running" =>
+                   /\ id \in DOMAIN expQH /\ expQH[id] = height
+                   /\ \A r \in ReqsOf(id, c.batch) : req[r].exp = height)
             /\ IF c.bstate = "running" /\ c.module # ""
                THEN OneRespCb(cb', RespCb(id, c.batch, OutputsOf(resp, id, c.batch), c.bthr))
                ELSE RespCbs(cb') = <<>>
@@ -554,7 +559,10 @@ Step_C12 ==
             /\ IF c.state = "running" /\ Broke(c) /\ c.module # ""
                THEN Len(StateCbs(cb')) = 1 /\ StateCbs(cb')[1].id = e.id
                ELSE StateCbs(cb') = <<>>
-    ELSE cb' = <<>>
+    ELSE /\ cb' = <<>>
+         \* no other step completes a batch
+         /\ \A id \in DOMAIN ctx \cap DOMAIN ctx' :
+               (ctx[id].bstate = "running" => ctx'[id].bstate = "running")
 
 -----------------------------------------------------------------------------
 (* C13  earnings are accounted per provider and per owner and paid out exactly *)
